@@ -5,11 +5,13 @@
 package main
 
 import (
+	"bytes"
 	"context"
 	"flag"
 	"fmt"
 	"strconv"
 	"sync"
+	"sync/atomic"
 	"time"
 
 	simplefixgo "github.com/b2broker/simplefix-go"
@@ -67,11 +69,16 @@ func run(side int) {
 	done := make(chan struct{})
 	var wg sync.WaitGroup
 	wg.Add(1)
+	var answerLogout int32 // set once Stop() has been called: the peer answers our Logout the moment it arrives
 	go func() { // the connection's writer side
 		defer wg.Done()
 		for {
 			select {
-			case <-h.Outgoing():
+			case m := <-h.Outgoing():
+				if atomic.LoadInt32(&answerLogout) == 1 && bytes.Contains(m, []byte("\x0135=5\x01")) {
+					atomic.StoreInt32(&answerLogout, 2)
+					go h.ServeIncoming(frame("35=5\x0149=PEER\x0156=ME\x0134=9999\x0152=20240101-00:00:00.000\x01"))
+				}
 			case <-done:
 				return
 			}
@@ -163,8 +170,15 @@ func run(side int) {
 		time.Sleep(300 * time.Millisecond)
 		fmt.Println("side", side, "logged after second logon:", s.IsLogged())
 	}
+	atomic.StoreInt32(&answerLogout, 1)
 	_ = s.Stop()
-	in("5")
+	for i := 0; i < 100 && atomic.LoadInt32(&answerLogout) != 2; i++ {
+		time.Sleep(2 * time.Millisecond)
+	}
+	if atomic.LoadInt32(&answerLogout) != 2 {
+		in("5")
+	}
+	fmt.Println("side", side, "logout answered by the peer's goroutine:", atomic.LoadInt32(&answerLogout) == 2)
 	select {
 	case <-s.Context().Done():
 	case <-time.After(2 * time.Second):
